@@ -116,7 +116,9 @@ def run_attacker(S, daemon, srv, servertype, sockX, steps):
     """drive the attacker's connection through the server layer; returns the escaped exception (or None)"""
     try:
         if servertype == "thread":
-            servers.make_job(daemon, sockX)()
+            tsrv = servers.make_threadpool(daemon)
+            tsrv.sock.pending.append(sockX)
+            tsrv.events([tsrv.sock])
         else:
             srv.sock.pending.append(sockX)
             srv.events([srv.sock])
@@ -125,6 +127,8 @@ def run_attacker(S, daemon, srv, servertype, sockX, steps):
                 if regs:
                     srv.events([regs[0]])
         return None
+    except rig.Hang as x:
+        return x
     except Exception as x:
         return x
 
@@ -151,6 +155,9 @@ def h_garbage(S, B):
     raw = S.bytes("raw", N)
     avail = S.choice("avail", list(range(0, N + 1)))
     at_end = S.choice("then", B["THEN"])
+    if at_end == "stall":
+        # a peer that sends nothing more: only a configured communication timeout bounds the wait
+        config.COMMTIMEOUT = 2.0
     sockX = rig.FakeSock("X", ("6.6.6.6", 666), at_end)
     if phase == "after-handshake":
         sockX.queue(connect_msg())
@@ -158,6 +165,7 @@ def h_garbage(S, B):
         sockX.queue(raw[:avail])
     escaped = run_attacker(S, daemon, srv, servertype, sockX, 3)
     S.cover("garbage:" + phase)
+    S.check("server-never-blocks-forever-on-a-silent-peer-when-a-timeout-is-configured", not isinstance(escaped, rig.Hang))
     S.check("request-loop-survives-garbage", escaped is None)
     S.check("nothing-executed-for-garbage", LOG == [])
     S.check("attacker-connection-ended", sockX.closed >= 1)
@@ -303,7 +311,7 @@ SYMDICT_FUNCTIONS = ["ReceivingMessage.__init__", "ReceivingMessage.add_payload"
 STUBS = rig.STUBS
 
 SPECS = [
-    Spec("garbage", h_garbage, {"quick": {"N": 40, "THEN": ["eof", "timeout"]}, "thorough": {"N": 48, "THEN": ["eof", "reset", "timeout"]}},
+    Spec("garbage", h_garbage, {"quick": {"N": 40, "THEN": ["eof", "stall"]}, "thorough": {"N": 48, "THEN": ["eof", "reset", "timeout", "stall"]}},
          covers=["garbage:first-message", "garbage:after-handshake", "check:witness-reply-value",
                  "check:daemon-accepts-new-connections"],
          native_patch=env.native_env_zlib, reset=_reset,
